@@ -2,12 +2,19 @@
 mod prng;
 mod util;
 mod arith;
+mod concat;
+mod dec;
+mod gdec;
+mod pool;
 
 fn main() {
     let args = util::parse_args();
     std::fs::create_dir_all(&args.out).unwrap();
     match args.cmd.as_str() {
         "arith" => arith::run(&args),
+        "concat" => concat::run_cmd(&args),
+        "pool" => pool::run_cmd(&args),
+        "concat1" => concat::run_one(&args),
         other => {
             eprintln!("unknown subcommand {}", other);
             std::process::exit(2);
